@@ -88,7 +88,7 @@ class ModuleInfo(object):
         self.inlined_calls = 0
         if not external and not os.environ.get('VT_NO_NORMALIZE'):
             # behaviour-preserving normalisation of the parsed tree (see normalize.py); positions are kept
-            from . import normalize
+            from . import normalize, normalize2
             self.is_pkg = os.path.basename(path) == '__init__.py'
 
             def imported(node):
@@ -102,7 +102,10 @@ class ModuleInfo(object):
                         return ast.parse(fh.read().decode('utf-8'), filename=op)
                 except (AnalysisError, SyntaxError, IOError, ValueError):
                     return None
+            moved = normalize2.materialize_imports(self.tree, name, self.is_pkg,
+                                                   lambda other: repo.raw_tree(other), normalize.anchor_names())
             self.tree, self.inlined_calls = normalize.normalize_tree(self.tree, lambda ident: repo.mentioned_outside(ident, path), imported)
+            self.inlined_calls += moved
         if external:
             self.relpath = 'site-packages/' + name.replace('.', '/') + '.py'
         else:
@@ -353,6 +356,19 @@ class Repo(object):
         if os.path.isfile(os.path.join(base, '__init__.py')):
             return os.path.join(base, '__init__.py')
         return None
+
+    def raw_tree(self, name):
+        """(parsed tree as written, is-a-package) of a module of the analysed package; None for anything else."""
+        if not name or not self.is_internal(name):
+            return None
+        path = self._path_of(name)
+        if path is None:
+            return None
+        try:
+            with open(path, 'rb') as f:
+                return ast.parse(f.read().decode('utf-8'), filename=path), os.path.basename(path) == '__init__.py'
+        except (SyntaxError, IOError, UnicodeDecodeError):
+            return None
 
     def is_internal(self, name):
         return name == self.PKG or name.startswith(self.PKG + '.')
